@@ -1,13 +1,15 @@
 (* evaluator for the message-level model of a whole transfer (C01, Model/Transfer.v)
 
-   transfer_transcript cfg table dest fs dflt entries tags
+   transfer_transcript cfg table dest fs dflt entries tabs tags
      cfg      proto:binary:directory:overwrite:ctype:upload        (numbers / 0|1)
      table    escape table, hex of the (byte, code) pairs in announcement order, - = none
      dest     destination path, hex components joined by /
      fs       prior file system: d:<path> | f:<path>:<hex content>, joined by ,
      dflt     sc_dflt (frame size once the observed sizes are used up)
-     entries  joined by , in the order the sender named them; each
-              id;isdir;rel;content;md5;z;sizes;profit;steps;prefinal
+     entries  the source list as checkPathsReadable produces it (archiveSourceFiles = tr_group is the
+              model's business), joined by , ; an item the sender named, followed - if it was named with
+              archive:true - by its SubFiles in the order of the archive stream; each
+              id;isdir;rel;content;md5;z;sizes;profit;steps;prefinal;hstops;hdr;wsizes
                 rel      hex components joined by .
                 content  hex (- = empty)        md5  hex of the digest of content
                 z        hex of the zstd output for content (- = the file went uncompressed)
@@ -15,11 +17,22 @@
                 profit   0|1 (the COMP flag if one was sent)
                 steps    saved steps of the per-frame acks, joined by .
                 prefinal saved steps of the final acks before completion, joined by .
+                hstops   resume: the number of HASH records the sender wrote before Over (- = none: never stops)
+                hdr      a SubFile: hex of its header line in the archive stream (- = an item)
+                wsizes   an archive item: how the decoded stream is cut into writes, joined by .
+              For a resumed file and for an archive item, md5 / z / sizes / steps / prefinal are those of
+              the FILE that went over the wire (the rest of the file, the archive stream); their
+              content -> md5 / z pairs are in tabs.
+     tabs     oracles for contents that are no entry's content, joined by , :
+                h:<content>:<md5>   z:<content>:<zstd output>
+                x:<prefix>:<digest> the hex MD5 string (as bytes) of a prefix compared in a resume
      tags     one letter per message of the REAL exchange, both directions merged in the order of
               recording, window acks moved behind the finish flag (N M Z C D F A 5 X S, O = other):
               evaluated with the model's grammar automaton (ORDER=)
 
-   The Section variables of Transfer.v: digest := byte list; H := lookup content -> md5 in the
+   The Section variables of Transfer.v: hx := lookup prefix -> digest string (x: pairs); ahdr / aparse :=
+   lookup tables between the records of the SubFiles (id, rel, isdir, size) and their header lines as
+   the harness decoded them; digest := byte list; H := lookup content -> md5 in the
    case; deq := (=); zcomp := lookup content -> [z] (no z in the case: [] for the empty content,
    a poison stream otherwise, so that a compression decision the implementation did not take shows);
    zdecomp := the inverse lookup ([] -> [], anything else fails); zl := identity; unzl := Some. *)
@@ -67,11 +80,14 @@ let str_of_msg (m : n list Transfer.tr_msg) =
   | Transfer.TrSuccTarget (nm, size) -> "SUCC:t:" ^ hex_of_bytes nm ^ ":" ^ istr size
   | Transfer.TrSuccAck (l, s) -> "ACK:" ^ istr l ^ ":" ^ istr s
   | Transfer.TrSuccDigest d -> "SUCC:d:" ^ hex_of_bytes d
+  | Transfer.TrHash (step, h) -> "HASH:" ^ string_of_z step ^ ":" ^ hex_of_bytes h
+  | Transfer.TrHashOver -> "HASH:over"
+  | Transfer.TrSuccHack (step, m) -> "SUCC:h:" ^ string_of_z step ^ ":" ^ b01 m
   | Transfer.TrKeepAlive -> "KEEP"
   | Transfer.TrFail -> "FAIL"
 
 let () =
-  register "transfer_transcript" (function [cfg; table; dest; pre; dflt; entries; tags] ->
+  register "transfer_transcript" (function [cfg; table; dest; pre; dflt; entries; tabs; tags] ->
       let cfg = match String.split_on_char ':' cfg with
         | [proto; bin; dir; ow; ctype; up] ->
           { Transfer.tc_proto = n_of_int (int_of_string proto); tc_binary = bool_of bin; tc_directory = bool_of dir;
@@ -81,20 +97,38 @@ let () =
       let dest = path_of dest in
       let f0 = fs_of pre in
       let dflt = nat_big (int_of_string dflt) in
-      let htab = ref [] and ztab = ref [] in
+      let htab = ref [] and ztab = ref [] and xtab = ref [] and atab = ref [] in
+      List.iter (fun t -> match String.split_on_char ':' t with
+          | ["h"; c; m] -> htab := (bytes_of_hex c, bytes_of_hex m) :: !htab
+          | ["z"; c; zz] -> ztab := (bytes_of_hex c, bytes_of_hex zz) :: !ztab
+          | ["x"; c; dg] -> xtab := (bytes_of_hex c, bytes_of_hex dg) :: !xtab
+          | _ -> failwith "tab") (split ',' tabs);
       let ess = List.map (fun e -> match String.split_on_char ';' e with
-          | [id; isdir; rel; content; md5; z; sizes; profit; steps; prefinal] ->
+          | [id; isdir; rel; content; md5; z; sizes; profit; steps; prefinal; hstops; hdr; wsizes] ->
             let isdir = bool_of isdir in
             let content = bytes_of_hex content in
-            if not isdir then begin
+            if not isdir && md5 <> "-" then begin
               htab := (content, bytes_of_hex md5) :: !htab;
               if z <> "-" then ztab := (content, bytes_of_hex z) :: !ztab
             end;
-            ({ Transfer.te_id = z_of_string id; te_rel = List.map bytes_of_hex (split '.' rel); te_isdir = isdir;
-               te_chunks = reads content },
+            let id = z_of_string id and rel = List.map bytes_of_hex (split '.' rel) in
+            if hdr <> "-" then begin
+              let s = { Names.s_id = id; s_rel = rel; s_isdir = isdir; s_archive = false } in
+              let sz = if isdir then Z0 else z_of_int (List.length content) in
+              atab := ((s, sz), bytes_of_hex hdr) :: !atab
+            end;
+            ({ Transfer.te_id = id; te_rel = rel; te_isdir = isdir;
+               te_chunks = reads content; te_subs = [] },
              { Transfer.sc_sizes = nats sizes; sc_dflt = dflt; sc_profit = bool_of profit;
-               sc_steps = ns steps; sc_prefinal = ns prefinal })
+               sc_steps = ns steps; sc_prefinal = ns prefinal;
+               sc_hstops = (if hstops = "-" then None else Some (nat_big (int_of_string hstops)));
+               sc_rsizes = []; sc_rdflt = nat_big 32767; sc_wsizes = nats wsizes; sc_wdflt = nat_big 4096 })
           | _ -> failwith "entry") (split ',' entries) in
+      (* the abstract external functions of the two sub-protocols, as lookup tables *)
+      let hx p = match List.assoc_opt p !xtab with Some dg -> dg | None -> List.map n_of_int [63] in
+      let ahdr s sz = match List.assoc_opt (s, sz) !atab with Some hl -> hl | None -> List.map n_of_int [63; 63] in
+      let ainv = List.map (fun (k, hl) -> (hl, k)) !atab in
+      let aparse raw = List.assoc_opt raw ainv in
       let h c = match List.assoc_opt c !htab with Some d -> d | None -> [] in
       let deq (a : n list) b = a = b in
       (* a content the implementation did not compress has no z in the case: if the model decides to
@@ -107,8 +141,8 @@ let () =
       let zinv = List.map (fun (c, z) -> (z, c)) !ztab in
       let zdecomp z = match List.assoc_opt z zinv with Some c -> Some c | None -> if z = [] then Some [] else None in
       let zl x = x and unzl x = Some x in
-      let fuel = tr_fuel zcomp cfg ess in
-      let cf = tr_run h deq zcomp zdecomp zl unzl fuel cfg dest ess f0 in
+      let fuel = tr_fuel zcomp hx ahdr aparse cfg dest ess f0 in
+      let cf = tr_run h deq zcomp zdecomp zl unzl hx ahdr aparse fuel cfg dest ess f0 in
       let pipeline = tr_pipeline cfg in
       (* protocol 1, base64 mode: the canonical length of a DATA message is that of the decoded chunk *)
       let str m = match m with
@@ -137,7 +171,8 @@ let () =
       let tree = listing ffs in
       (* the specification (a function of the entries alone): the name per entry, and its final
          file system must be the one the two machines produced *)
-      let spec = match tr_spec cfg dest (List.map fst ess) (Names.init_state f0) [] with
+      let items = tr_group cfg ess in
+      let spec = match tr_spec hx ahdr aparse cfg dest items (Names.init_state f0) [] with
         | Some ((per, all), st) ->
           Printf.sprintf "%s;%s;%s" (hexs per) (hexs all) (b01 (listing st.Names.st_fs = tree))
         | None -> "none" in
@@ -147,11 +182,14 @@ let () =
         | 'N' -> Transfer.TrNum N0 | 'M' -> Transfer.TrName (Transfer.TrPlain []) | 'Z' -> Transfer.TrSize N0
         | 'C' -> Transfer.TrComp false | 'D' -> Transfer.TrData [N0] | 'F' -> Transfer.TrData []
         | 'A' -> Transfer.TrSuccAck (N0, N0) | '5' -> Transfer.TrMd5 [] | 'X' -> Transfer.TrExit []
-        | 'S' -> Transfer.TrSuccInt N0 | _ -> Transfer.TrFail in
+        | 'S' -> Transfer.TrSuccInt N0 | 'h' -> Transfer.TrHash (Z0, []) | 'o' -> Transfer.TrHashOver
+        | 'k' -> Transfer.TrSuccHack (Z0, true) | _ -> Transfer.TrFail in
       let order = tr_shape_ok pipeline (List.init (String.length tags) (fun i -> (true, dummy tags.[i]))) in
-      Printf.sprintf "S=%s|R=%s|SN=%s|RN=%s|NEW=%s|SHAPE=%s|TREE=%s|C2S=%s|S2C=%s|ORDER=%s|SPEC=%s"
+      (* the premises of the theorems that can be decided: the items are well-formed, the headers decode *)
+      let wf = tr_wfb cfg (List.map fst items) in
+      Printf.sprintf "S=%s|R=%s|SN=%s|RN=%s|NEW=%s|SHAPE=%s|TREE=%s|C2S=%s|S2C=%s|ORDER=%s|SPEC=%s|WF=%s"
         (b01 (tr_sender_ok cf)) (b01 (tr_receiver_ok cf))
         (hexs cf.Transfer.cf_s.Transfer.ss_names) (hexs cf.Transfer.cf_r.Transfer.rs_names)
         (String.concat "," tops) (b01 (tr_shape_ok pipeline cf.Transfer.cf_log))
-        (String.concat "," tree) c2s s2c (b01 order) spec
+        (String.concat "," tree) c2s s2c (b01 order) spec (b01 wf)
     | _ -> "?args")
